@@ -62,24 +62,24 @@ func (d *AuthGrid) Build() *World {
 	}
 	al := []neotest.Signer{w.AlphaS}
 	cm := []neotest.Signer{w.CommS}
-	nns := w.Deploy("nns", CompileDir(Repo, "nns"), []any{[]any{[]any{"neofs", "ops@x.y"}, []any{"com", "ops@x.y"}}})
-	nm := w.Deploy("netmap", CompileDir(Repo, "netmap"), []any{false, util.Uint160{}, util.Uint160{}, []any{}, []any{[]byte("ContainerFee"), int64(0), []byte("ContainerAliasFee"), int64(0)}})
+	nns := w.Deploy("nns", compiledFor("nns"), []any{[]any{[]any{"neofs", "ops@x.y"}, []any{"com", "ops@x.y"}}})
+	nm := w.Deploy("netmap", compiledFor("netmap"), []any{false, util.Uint160{}, util.Uint160{}, []any{}, []any{[]byte("ContainerFee"), int64(0), []byte("ContainerAliasFee"), int64(0)}})
 	w.RegisterNNS("netmap", nm.Hash)
-	bal := w.Deploy("balance", CompileDir(Repo, "balance"), []any{false, util.Uint160{}, util.Uint160{}})
+	bal := w.Deploy("balance", compiledFor("balance"), []any{false, util.Uint160{}, util.Uint160{}})
 	w.RegisterNNS("balance", bal.Hash)
-	id := w.Deploy("neofsid", CompileDir(Repo, "neofsid"), []any{false})
+	id := w.Deploy("neofsid", compiledFor("neofsid"), []any{false})
 	w.RegisterNNS("neofsid", id.Hash)
-	cnt := w.Deploy("container", CompileDir(Repo, "container"), []any{int64(0), nm.Hash, bal.Hash, id.Hash, nns.Hash, "container"})
-	w.Deploy("reputation", CompileDir(Repo, "reputation"), []any{false})
-	w.Deploy("audit", CompileDir(Repo, "audit"), []any{false})
-	px := w.Deploy("proxy", CompileDir(Repo, "proxy"), nil)
-	ab := w.Deploy("alphabet", CompileDir(Repo, "alphabet"), []any{false, nm.Hash, px.Hash, "az", int64(0), int64(d.N)})
+	cnt := w.Deploy("container", compiledFor("container"), []any{int64(0), nm.Hash, bal.Hash, id.Hash, nns.Hash, "container"})
+	w.Deploy("reputation", compiledFor("reputation"), []any{false})
+	w.Deploy("audit", compiledFor("audit"), []any{false})
+	px := w.Deploy("proxy", compiledFor("proxy"), nil)
+	ab := w.Deploy("alphabet", compiledFor("alphabet"), []any{false, nm.Hash, px.Hash, "az", int64(0), int64(d.N)})
 	var ks []any
 	for _, k := range w.Pubs {
 		ks = append(ks, k.Bytes())
 	}
-	pc := CompileDir(Repo, "processing")
-	nf := w.Deploy("neofs", CompileDir(Repo, "neofs"), []any{false, w.PredictHash(pc), ks, []any{[]byte("InnerRingCandidateFee"), candFee, []byte("WithdrawFee"), int64(7)}})
+	pc := compiledFor("processing")
+	nf := w.Deploy("neofs", compiledFor("neofs"), []any{false, w.PredictHash(pc), ks, []any{[]byte("InnerRingCandidateFee"), candFee, []byte("WithdrawFee"), int64(7)}})
 	w.Deploy("processing", pc, []any{nf.Hash})
 	// ---- a state in which every method has a succeeding argument vector ----
 	rm := w.E.NativeHash(w.T, nativenames.Designation)
